@@ -51,11 +51,11 @@ def diff_runs(env, cases, fuel=200000, seed=0, timeout_ms=5000, need_oracle=True
             if c.get('mode') == 'repl':
                 g, _m = core.repl_case(c['id'], c['src'])
             else:
-                g, _m = core.file_case(c['id'], c['src'], c.get('stdin', ''), timeout_ms=c.get('timeout_ms', 0), repeat=2)
+                g, _m = core.file_case(c['id'], c['src'], c.get('stdin', ''), timeout_ms=4 * (c.get('timeout_ms', 0) or timeout_ms), repeat=2)
             if c.get('mode') == 'repl':
                 g['repeat'] = 2
             gcs2.append(g)
-        again = env.run_impl(gcs2, timeout_ms=timeout_ms)
+        again = env.run_impl(gcs2, timeout_ms=4 * timeout_ms)      # four times the time: a loaded machine is not a looping program
         kept = []
         for m in mism:
             c = m.get('case')
